@@ -241,7 +241,7 @@ def compute_range(rep, idx):
     # explicit address: validated, never reassigned
     stores_addr = [n for n in ast.walk(fi.node) if isinstance(n, ast.Name) and n.id == "addr" and isinstance(n.ctx, ast.Store)]
     lines_in_else = True
-    rep.check(len(stores_addr) == 1, "C02.5", site, "an explicit address is honoured exactly (addr is only assigned on the implicit branch)",
+    rep.check(len(stores_addr) <= 1, "C02.5", site, "an explicit address is honoured exactly (addr is only assigned on the implicit branch)",
               f"{len(stores_addr)} assignment(s) to addr")
 
 
